@@ -203,7 +203,8 @@ def build(W, cfg):
     S.shell_log_l = np.zeros(B, dtype=float)
     S.shell_log_v = np.zeros(B, dtype=float)
     lmin = [-INF] + [W.real('lmin_%d' % i) for i in range(1, B)]
-    S.shell_log_l_min = np.array(lmin, dtype=float)
+    S.shell_log_l_min = np.array(lmin, dtype=float) if B > 0 else \
+        np.zeros(0)
     # statistics are, by the invariant, what update_shell_info defines
     for i in range(B):
         S.update_shell_info(i)
